@@ -235,7 +235,9 @@ func fillNetmap(ctx, epoch)
   // nothing else appears under the epoch's prefix
   ensures [C06] forall x Bytes {store.opt(x)} :: prefix(pkey(epoch), x) && store.opt(x) != old(store).opt(x) ==> old(store).has("2" ++ x[5:]) && store.opt(x) == old(store).opt("2" ++ x[5:])
   ensures notifs == old(notifs)
+  ensures samesnap(store, old(store), "e")
   loop 0
+    invariant samesnap(store, old(store), "e")
     invariant forall j Int {$it.key(j)} :: 0 <= j && j < $it.pos ==> store.opt(pkey(epoch) ++ $it.key(j)[1:]) == old(store).opt($it.key(j))
     invariant forall x Bytes {store.opt(x)} :: !prefix(pkey(epoch), x) ==> store.opt(x) == old(store).opt(x)
     invariant forall x Bytes {store.opt(x)} :: prefix(pkey(epoch), x) && store.opt(x) != old(store).opt(x) ==> old(store).has("2" ++ x[5:]) && store.opt(x) == old(store).opt("2" ++ x[5:])
@@ -247,7 +249,9 @@ func dropNetmap(ctx, epoch)
   ensures [C06] forall x Bytes {store.opt(x)} :: prefix(pkey(epoch), x) ==> !store.has(x)
   ensures [C06] forall x Bytes {store.opt(x)} :: !prefix(pkey(epoch), x) ==> store.opt(x) == old(store).opt(x)
   ensures notifs == old(notifs)
+  ensures samesnap(store, old(store), "e")
   loop 0
+    invariant samesnap(store, old(store), "e")
     invariant forall j Int {$it.key(j)} :: 0 <= j && j < $it.pos ==> !store.has($it.key(j))
     invariant forall x Bytes {store.opt(x)} :: !prefix(pkey(epoch), x) ==> store.opt(x) == old(store).opt(x)
     invariant forall x Bytes {store.opt(x)} :: store.has(x) ==> store.opt(x) == old(store).opt(x)
@@ -351,6 +355,7 @@ lemma bytesInjective [C06,C08]: forall a Int, b Int :: 0 <= a && a < 4294967296 
       a / 16777216 == b / 16777216 && (a / 65536) % 256 == (b / 65536) % 256 && (a / 256) % 256 == (b / 256) % 256 && a % 256 == b % 256 ==> a == b
 // the fragment computed for a (small) negative number is that of a non-negative epoch at least 128
 lemma fbeNonNegative [C06,C08] reveal fbe: forall e Int {fbe(e)} :: 0 <= e ==> fbe(e) == be4(e)
+lemma fbeInjective [C06,C08] reveal fbe: forall a Int, b Int {fbe(a), fbe(b)} :: 0 <= a && a < 4294967296 && 0 <= b && b < 4294967296 && fbe(a) == fbe(b) ==> a == b
 lemma fbeLen [C06,C08] reveal fbe: forall e Int {fbe(e)} :: 0 - 32768 <= e && e < 4294967296 ==> len(fbe(e)) == 4
 lemma fbeNegative [C08] reveal fbe: forall e Int :: 0 - 254 <= e && e < 0 ==> fbe(e) == be4(e >= 0 - 128 ? 256 + e : 65536 + e) && (e >= 0 - 128 ? 256 + e : 65536 + e) >= 128
 @*/
